@@ -541,7 +541,7 @@ pub fn run(tier: Tier, seed: u64, replay: Option<Value>) -> i32 {
     // the hooks are process-global, so the three parts run in three child processes, in parallel
     let part = std::env::var("FVH_PART").unwrap_or_default();
     if part.is_empty() {
-        let exe = std::env::current_exe().unwrap();
+        let exe = crate::own_exe();
         let children: Vec<(String, std::process::Child)> = ["A", "B", "C"]
             .iter()
             .filter_map(|p| {
